@@ -321,7 +321,7 @@ def bytecode_cross_check(rep, bins, prop, backend, judged, limit):
         if v["verdict"] != "accepted" or t["claim"] != "complete" or v["steps"] < 10:
             continue
         for r in runs:
-            if r.get("backend") != backend or r.get("mode", "exec") != "exec" or r.get("alloc", "sys") != "sys":
+            if r.get("backend") != backend or r.get("mode", "exec") != "exec":
                 continue
             key = (case["id"], r["level"])
             if key in seen:
@@ -334,8 +334,10 @@ def bytecode_cross_check(rep, bins, prop, backend, judged, limit):
     acc = sum(1 for v in verd.values() if v["verdict"] == "accepted")
     inc = sum(1 for v in verd.values() if v["verdict"] == "inconclusive")
     rej = [(k, v) for k, v in verd.items() if v["verdict"] == "rejected"]
-    rep.coverage["bytecode_model_cross_check"] = {"bytecode_programs_run_in_TLC": len(verd), "accepted": acc,
-                                                  "inconclusive": inc, "model_drift": len(rej)}
+    rep.coverage.setdefault("bytecode_model_cross_check", {})[backend] = {
+        "bytecode_programs_run_in_TLC": len(verd), "accepted": acc, "inconclusive": inc, "model_drift": len(rej),
+        "checked_in_every_state": "every tape access inside the declared window and inside what the bounds "
+                                  "protocol made accessible (BC.tla WindowInside / access checks)"}
     for k, v in rej[:5]:
         rep.info("model-drift BC.tla vs real %s on case %s level %d: %s" % (backend, k[0], k[1], v["why"][:200]))
 
@@ -843,6 +845,11 @@ def c06(tier):
                             "pointer excursion of at least 8 cells")
     rep.assumptions.append("an access outside the owned allocation by less than the distance to the guard page on "
                            "the non-flush side is only caught through its effect on the event log")
+    if not os.environ.get("VERIF_CASES"):
+        # model side: the bounds protocol on the executed path of the roamers' bytecode (BC.tla)
+        roam = [j for j in judged if j[0]["pop"] == "T"]
+        for backend in ("bcint", "jit"):
+            bytecode_cross_check(rep, bins, "C06", backend, roam, 250 if tier == "quick" else 4000)
     settle(rep, "C06", bins, judged, shrink=False)
     return rep.finish()
 
